@@ -531,6 +531,33 @@ func runC18(c *Ctx) {
 				copied = true
 			}
 		})
+		// or copied wholesale first (maps.Copy / maps.Clone of the service), the transformer's own members stored after it
+		if !copied {
+			forEachInstr(ps, func(in ssa.Instruction) {
+				cl, ok := in.(*ssa.Call)
+				if !ok || cl.Call.StaticCallee() == nil || len(cl.Call.Args) != 2 {
+					return
+				}
+				o := cl.Call.StaticCallee().Origin()
+				if o == nil || pkgPathOf(o) != "maps" || o.Name() != "Copy" {
+					return
+				}
+				dst, isMM := stripConv(cl.Call.Args[0]).(*ssa.MakeMap)
+				if !isMM || !strings.Contains(c.Path(cl.Call.Args[1], nil), "[ι]") {
+					return
+				}
+				// every store of the transformer's own members into dst comes after the copy
+				after := true
+				for _, r := range *dst.Referrers() {
+					if mu, isMU := r.(*ssa.MapUpdate); isMU && mu.Map == ssa.Value(dst) {
+						if _, isK := mu.Key.(*ssa.Const); isK && !instrBefore(cl, mu) {
+							after = false
+						}
+					}
+				}
+				copied = after
+			})
+		}
 		c.Check("C18.P1", "service:other-members-copied", copied, ps.Pos(), "every further member of the internal service is copied to the external one")
 	} else {
 		c.Unresolved("C18.P1", "processServices")
@@ -679,21 +706,15 @@ func (c *Ctx) keyMaterialTable(pk *ssa.Function) {
 			}
 		}
 	})
-	for _, job := range jobs {
-		env := job.env
-		forEachInstr(job.f, func(in ssa.Instruction) {
-			mu, ok := in.(*ssa.MapUpdate)
-			if !ok || !job.isMap(mu.Map) {
-				return
-			}
-			k := unquote(c.Path(mu.Key, env))
+	var emit func(blk *ssa.BasicBlock, env Env, k, v string)
+	emit = func(blk *ssa.BasicBlock, env Env, k, v string) {
+		{
 			if k != "publicKeyJwk" && k != "publicKeyBase58" && k != "publicKeyMultibase" {
 				return
 			}
-			v := c.Path(mu.Value, env)
 			// conditions on the key type along the dominating If chain
 			var conds []string
-			for b := mu.Block(); b != nil; b = b.Idom() {
+			for b := blk; b != nil; b = b.Idom() {
 				id := b.Idom()
 				if id == nil {
 					break
@@ -726,6 +747,32 @@ func (c *Ctx) keyMaterialTable(pk *ssa.Function) {
 				val = v
 			}
 			rows = append(rows, strings.Join(conds, " ∧ ")+" ⇒ "+k+" := "+val)
+		}
+	}
+	for _, job := range jobs {
+		env := job.env
+		forEachInstr(job.f, func(in ssa.Instruction) {
+			mu, ok := in.(*ssa.MapUpdate)
+			if !ok || !job.isMap(mu.Map) {
+				return
+			}
+			// the member and its value chosen by a helper that hands both back: one row per accepting exit of the helper
+			if ke, isKE := mu.Key.(*ssa.Extract); isKE {
+				if ve, isVE := mu.Value.(*ssa.Extract); isVE && ve.Tuple == ke.Tuple {
+					if hc, isC := ke.Tuple.(*ssa.Call); isC {
+						if g := hc.Call.StaticCallee(); g != nil && inModule(g) && g.Blocks != nil {
+							genv := c.calleeEnv(&hc.Call, g, env)
+							for _, r := range returnsOf(g) {
+								if maySucceed(r) && ke.Index < len(r.Results) && ve.Index < len(r.Results) {
+									emit(r.Block(), genv, unquote(c.Path(returnedValue(r, ke.Index), genv)), c.Path(returnedValue(r, ve.Index), genv))
+								}
+							}
+							return
+						}
+					}
+				}
+			}
+			emit(mu.Block(), env, unquote(c.Path(mu.Key, env)), c.Path(mu.Value, env))
 		})
 	}
 	sort.Strings(rows)
@@ -789,10 +836,18 @@ func (c *Ctx) metadataMapping(pMeta string) {
 	defer func() { c.condEnv = nil }()
 	type upd struct{ key, val string }
 	var ups []upd
+	tenvs := c.tableLoopEnvs(host, henv)
 	forEachInstr(host, func(in ssa.Instruction) {
 		if mu, ok := in.(*ssa.MapUpdate); ok {
 			if _, isK := mu.Key.(*ssa.Const); isK {
 				ups = append(ups, upd{unquote(c.Path(mu.Key, nil)), c.Path(mu.Value, henv)})
+				return
+			}
+			// members stored by a loop over a literal list of names: one store per name
+			for _, te := range tenvs {
+				if k := c.Path(mu.Key, te); strings.HasPrefix(k, `"`) {
+					ups = append(ups, upd{unquote(k), c.Path(mu.Value, te)})
+				}
 			}
 		}
 	})
@@ -842,8 +897,9 @@ func (c *Ctx) metadataMapping(pMeta string) {
 		"versionId":             {"VersionID"},
 		"updated":               {"VersionID", "UpdatedTime"},
 	}
+	loopControl := regexp.MustCompile(`^\((len\(.*\) <= ι|ι < len\(.*\))\)=true$`)
 	entryGuard := func(cnd string) bool {
-		return strings.HasPrefix(cnd, "($1 ") || strings.HasPrefix(cnd, "($1.Doc ") || strings.HasPrefix(cnd, "($2 ") || cnd == `$2["published"]#1=true`
+		return loopControl.MatchString(cnd) || strings.HasPrefix(cnd, "($1 ") || strings.HasPrefix(cnd, "($1.Doc ") || strings.HasPrefix(cnd, "($2 ") || cnd == `$2["published"]#1=true`
 	}
 	forEachInstr(host, func(in ssa.Instruction) {
 		mu, ok := in.(*ssa.MapUpdate)
@@ -898,18 +954,22 @@ func (c *Ctx) metadataMapping(pMeta string) {
 			continue
 		}
 		c.Analysed(f)
-		as := allocsOf(f, nt)
-		if len(as) != 1 {
+		// the literal, or the constructor helper that builds it from the operation (values rendered in f's frame)
+		objs := c.builtObjs(f, nt)
+		if len(objs) != 1 {
 			c.Check("C18.P2", lit.typ+":literal", false, f.Pos(), "expected one literal")
 			continue
 		}
-		ft := c.fieldTable(as[0], nil)
+		ft := map[string][]string{}
+		for _, fs := range c.storesIntoObj(objs[0]) {
+			ft[fs.Field] = append(ft[fs.Field], c.Path(fs.Val, fs.Env))
+		}
 		for i := 0; i < numFields(nt); i++ {
 			fld := fieldName(nt, i)
 			src, want := lit.fields[fld]
 			got := ft[fld]
 			ok := want && len(got) == 1 && got[0] == "$0[ι]."+src
-			c.Check("C18.P2", lit.typ+"."+fld, ok, as[0].Pos(), fmt.Sprintf("%s.%s = %v (expected the same-named field of the anchored operation)", lit.typ, fld, got))
+			c.Check("C18.P2", lit.typ+"."+fld, ok, objs[0].v.Pos(), fmt.Sprintf("%s.%s = %v (expected the same-named field of the anchored operation)", lit.typ, fld, got))
 		}
 	}
 	// de-duplication keyed by canonical reference
